@@ -197,4 +197,38 @@ Section WithFloat.
       apply (declared_same _ _ _ Rrs). exact C. }
     rewrite V. eexists. split; [reflexivity|]. repeat split; assumption.
   Qed.
+  (* ---- grid spaces ---- *)
+  Variable one : F.
+  Definition grid_equiv (g g' : grid_obj F) : Prop :=
+    go_w F g = go_w F g' /\ go_h F g = go_h F g' /\ go_d F g = go_d F g' /\ go_env F g = go_env F g' /\ qty_equiv (go_vol F g) (go_vol F g')
+    /\ go_per F g = go_per F g' /\ go_units F g = go_units F g'.
+  Definition wf_grid_obj (g : grid_obj F) : Prop :=
+    (0 < go_w F g)%Z /\ (0 < go_h F g)%Z /\ (0 < go_d F g)%Z /\ Z.of_nat (length (go_env F g)) = (go_w F g * go_h F g * go_d F g)%Z
+    /\ snd (snd (go_vol F g)) = dimVolume.
+
+  Lemma read_list_ints (es : list Z) : read_list (fun x => match x with JInt e => Ok e | _ => Err end) (map JInt es) = Ok es.
+  Proof. induction es as [|e es IH]; [reflexivity|]. cbn [map read_list]. rewrite IH. reflexivity. Qed.
+
+  Lemma read_bc_written bx by_ bz :
+    read_bc [(k_x, bc_text bx); (k_y, bc_text by_); (k_z, bc_text bz)] (false, false, false) = Ok (bx, by_, bz).
+  Proof. destruct bx, by_, bz; vm_compute; reflexivity. Qed.
+
+  Theorem grid_roundtrip parent (g : grid_obj F) : wf_grid_obj g ->
+    exists g', read_grid F parse_float zero one parent (write_grid F print_float wr g) = Ok g' /\ grid_equiv g g'.
+  Proof.
+    intros (Hw & Hh & Hd & Hlen & Hvol). unfold read_grid, write_grid, wr. destruct (go_per F g) as [[bx by_] bz] eqn:Eper.
+    assert (Hsc : wf_schema schema_grid = true /\ forallb (fun syn : list str => match syn with [] => false | _ => true end) schema_grid = true
+                  /\ length schema_grid = 8%nat) by (vm_compute; repeat split).
+    destruct Hsc as (Hwf & Hne & Hl).
+    rewrite (write_then_read jv schema_grid _ Hwf) by (try (cbn [length]; rewrite Hl; reflexivity); apply nonempty_of_forallb; exact Hne).
+    unfold read_units_field. change (write_usys (write_fields jv) (go_units F g)) with (write_usys wr (go_units F g)).
+    assert (U : read_usys (write_usys wr (go_units F g)) = Ok (go_units F g)) by apply usys_roundtrip.
+    unfold write_usys in U |- *. rewrite U. unfold read_size.
+    replace (0 <? go_w F g)%Z with true by (symmetry; apply Z.ltb_lt; exact Hw).
+    replace (0 <? go_h F g)%Z with true by (symmetry; apply Z.ltb_lt; exact Hh).
+    replace (0 <? go_d F g)%Z with true by (symmetry; apply Z.ltb_lt; exact Hd).
+    rewrite read_list_ints, Hlen, Z.eqb_refl.
+    destruct (read_qty_print (go_vol F g) dimVolume Hvol) as (v' & Ev & Qv). rewrite Ev, read_bc_written.
+    eexists. split; [reflexivity|]. repeat split; try reflexivity; try assumption; apply Qv.
+  Qed.
 End WithFloat.
